@@ -219,6 +219,9 @@ fn one_case(ctx: &Ctx, case: u64, l: &mut Local) {
                 let n = used_literals.len() as u64;
                 let cand = match r.below(13) {
                     // templating placeholders: a salt is data, never a pattern
+                    // padded base64 text: the '=' signs belong to the salt
+                    9 if r.chance(50) => format!("bGFwaW4{n}ZGUgZ2FyZW5uZQ=="),
+                    10 if r.chance(50) => format!("{n}="),
                     9 => format!("{{value}}{n}"),
                     10 => format!("{{name}}{n}"),
                     11 => format!("{n}{{salt}}{{}}"),
@@ -512,7 +515,8 @@ fn one_case(ctx: &Ctx, case: u64, l: &mut Local) {
                         let other_strat = gen::gen_strategy(&mut r, &s.u, other_kind);
                         let mut reused = api::new_issuer(s.cfg.alg, 0, s.explicit_alg);
                         fill_salts(&salts);
-                        let _ = pipeline::issue_with(&mut reused, &s.u, &other_strat, s.cfg.holder, false, s.cfg.fmt);
+                        // (the first call binds another holder key than the second: none of it may stick)
+                        let _ = pipeline::issue_with(&mut reused, &s.u, &other_strat, Some((Alg::ES256, 1)), true, s.cfg.fmt);
                         fill_salts(&salts);
                         let again = pipeline::issue_with(&mut reused, &s.u, &s.strat, s.cfg.holder, false, s.cfg.fmt);
                         fill_salts(&[]);
